@@ -484,3 +484,44 @@ pub fn print_exec_b(ex: &ExecB, out: &mut impl std::io::Write, skip_files: &[&st
     if ex.deadlock { let _ = writeln!(out, "X deadlock"); }
     if xline { for t in &ex.blocked_forever { let _ = writeln!(out, "X blocked-forever {}", t); } }
 }
+
+// ---------------------------------------------------------------------------------------
+// Additions for C13 (append-only): filtered gating.  A filter decides per access whether the
+// access is a scheduling point (FILTER_GATE: park + log, as with `install`), only recorded
+// (FILTER_LOG: logged in program order, the thread does not park) or invisible (FILTER_SKIP).
+// Needed where the code under test takes a real mutex: a thread must never park while it holds
+// the lock, so accesses inside the critical section are LOG/SKIP and run within the step of
+// the access that preceded the lock.
+// ---------------------------------------------------------------------------------------
+pub const FILTER_SKIP: u8 = 0;
+pub const FILTER_GATE: u8 = 1;
+pub const FILTER_LOG: u8 = 2;
+pub type FilterFn = fn(&Access) -> u8;
+
+static FILTER: std::sync::atomic::AtomicUsize = std::sync::atomic::AtomicUsize::new(0);
+thread_local! { static FDEC: Cell<u8> = const { Cell::new(FILTER_GATE) }; }
+
+fn hook_before_filtered(a: &Access) {
+    if TID.with(|c| c.get()).is_none() { return; }
+    let f = FILTER.load(std::sync::atomic::Ordering::Relaxed);
+    let d = if f == 0 { FILTER_GATE } else { let f: FilterFn = unsafe { std::mem::transmute(f) }; f(a) };
+    FDEC.with(|c| c.set(d));
+    if d == FILTER_GATE { hook_before(a); }
+}
+
+fn hook_after_filtered(a: &Access, rd: u64, wr: u64, ok: bool) {
+    if TID.with(|c| c.get()).is_none() { return; }
+    if FDEC.with(|c| c.get()) != FILTER_SKIP { hook_after(a, rd, wr, ok); }
+}
+
+/// like `install`, but every access of a harness thread is first classified by `f`
+pub fn install_filtered(f: FilterFn) {
+    FILTER.store(f as usize, std::sync::atomic::Ordering::SeqCst);
+    verif_gate::set_hooks(hook_before_filtered, hook_after_filtered);
+}
+
+/// replace the filter of an installed filtered gate
+pub fn set_filter(f: FilterFn) { FILTER.store(f as usize, std::sync::atomic::Ordering::SeqCst); }
+
+/// harness thread id of the calling thread (None on ungated threads)
+pub fn current_tid() -> Option<usize> { TID.with(|c| c.get()) }
